@@ -9,7 +9,7 @@ echo "" >> "$OUT"; echo "| seed | expected | exit | result |" >> "$OUT"; echo "|
 for d in "$V"/seeded/C*-*; do
   s=$(basename "$d"); case "$s" in $PAT*) ;; *) continue;; esac
   id=${s%%-*}
-  (cd "$WT" && git checkout -q -- . && git apply "$d/patch.diff") || { echo "| $s | exit 1 | - | patch does not apply any more (code moved on) |" >> "$OUT"; continue; }
+  (cd "$WT" && git checkout -q -- . && git apply "$d/patch.diff" 2>/dev/null) || { echo "| $s | exit 1 | - | patch does not apply any more (code moved on) |" >> "$OUT"; continue; }
   (cd "$V" && FALCON_ROOT="$WT" timeout 3000 ./check "$id" --tier quick > /tmp/allseeds$SUF.log 2>&1); rc=$?
   echo "| $s | exit 1 | $rc | $(grep -o 'violations=[0-9]* known=[0-9]* details=[0-9]*' /tmp/allseeds$SUF.log | tail -n 1) $(grep 'by clause' /tmp/allseeds$SUF.log | tail -n 1 | cut -c1-120) |" >> "$OUT"
 done
